@@ -108,7 +108,9 @@ Clause(i, cl, nn, old, new, seen) ==
       [] cl.t = "supp" ->         \* every value variable v holds at any point is in vals
             \* cl.start is the variable's start value: what it "holds" before its first assignment is not a value
             \* the program gave it (the harness makes start values of uninitialised variables distinctive)
-            LET vals == {cl.vals[j].a : j \in 1..Len(cl.vals)} \cup {cl.start.a}
+            \* (exempt = FALSE when the program may READ the start value before assigning the variable: then it is
+            \* an input of the program and counts)
+            LET vals == {cl.vals[j].a : j \in 1..Len(cl.vals)} \cup (IF cl.exempt THEN {cl.start.a} ELSE {})
                 bad  == Support(cl.v, seen[cl.pi]) \ vals
             IN  IF bad = {} THEN OK ELSE Bad(i, cl, nn, CHOOSE x \in bad : TRUE)
       [] cl.t = "equiv" ->        \* same joint law of the listed variables
